@@ -200,10 +200,10 @@ PROPS['C04'] = _board('C04', ['C04'],
 PROPS['C04'].update({'stress': ['C04']})
 PROPS['C04'].update({
     'coq_targets': ['Properties/C04.vo', 'Properties/C16.vo', 'Properties/C15.vo', 'Impl/ImplBoard.vo'],
-    'obligation_files': ['Properties/C04.v', 'Lemmas/DriverLemmas.v', 'Lemmas/DriverLemmas4.v', 'Lemmas/DriverLemmas5.v', 'Lemmas/SearchBoardInst.v', 'Impl/ImplBoard.v'],
+    'obligation_files': ['Properties/C04.v', 'Lemmas/DriverLemmas.v', 'Lemmas/DriverLemmas4.v', 'Lemmas/DriverLemmas5.v', 'Lemmas/SearchBoardInst.v', 'Lemmas/UciLegal.v', 'Lemmas/UciLegal2.v', 'Lemmas/UciLegal4.v', 'Impl/ImplBoard.v'],
     'level': 'proof',
-    'level_text': 'Proof on the driver transition system (Model/Driver.v: command loop, search goroutine, forwarder, movetime timer and hard-limit timer as separately scheduled processes over the active / searches counters, the update channel with sequence numbers and the AsyncCloser handle): in every reachable state of every script under every interleaving each go has at most one bestmove, a bestmove is only ever emitted for a go, and once the system is at rest every go that was not superseded and whose search ended by itself, was stopped, timed out or was answered by the book has exactly one; Halt returns a completed iteration of depth >= 1. Legality / null move: the PV of the full-window root search on the real board model is a line of legal moves, empty only without legal moves or at a draw-by-rule root (board_pv_sound_nott; with a table the sequential end-to-end model UciSeq.go_depth is compared with the driver output and the specification). The model is tied to the code by replaying every command/output trace recorded from the real driver (four engine configurations, race build, random timing) through the trace acceptor of the model (Driver.obs_ok) and by the sequential end-to-end model.',
-    'level_note': 'The transition system is hand-written from uci.go / engine.go / iterative.go; its tie to the code is the trace acceptor: real traces must be accepted by Driver.obs_ok, and obs_sound proves that the acceptor accepts every trace of the model (so a rejected real trace is behaviour outside the model); in addition two scripts are explored exhaustively (3289 / 7457 states); scheduling fairness and Go channel semantics are modelled, wall-clock timers are nondeterministic events. Legality with a transposition table rests on the differential check (C11 shows table-on = table-off for scores, PV legality under hash collision is not proved). Trusted: Coq kernel, extraction, harness.',
+    'level_text': 'Proof on the driver transition system (Model/Driver.v: command loop, search goroutine, forwarder, movetime timer and hard-limit timer as separately scheduled processes over the active / searches counters, the update channel with sequence numbers and the AsyncCloser handle): in every reachable state of every script under every interleaving each go has at most one bestmove, a bestmove is only ever emitted for a go, and once the system is at rest every go that was not superseded and whose search ended by itself, was stopped, timed out or was answered by the book has exactly one; Halt returns a completed iteration of depth >= 1. Legality / null move, end to end on the sequential UCI model that is compared line by line with the real driver (UciSeq.go_depth: fork, iterative deepening with the engine table, bestmove = head of the last PV): the answer to go depth d is legal in the specification game of the position last set up and is the null move only if that game has no legal move - without table and with a table under HashValue/TTInv (a fresh table satisfies TTInv), also when a draw can be claimed at the root (threefold, clock 100, bare kings), the engine s own game untouched (go_depth_bestmove_legal, _table, _noq); for whole sessions of valid position lines, ucinewgame and go depth d (uci_session_legal_noq). The model is tied to the code by replaying every command/output trace recorded from the real driver (four engine configurations, race build, random timing) through the trace acceptor of the model (Driver.obs_ok) and by the sequential end-to-end model.',
+    'level_note': 'The transition system is hand-written from uci.go / engine.go / iterative.go; its tie to the code is the trace acceptor: real traces must be accepted by Driver.obs_ok, and obs_sound proves that the acceptor accepts every trace of the model (so a rejected real trace is behaviour outside the model); in addition two scripts are explored exhaustively (3289 / 7457 states); scheduling fairness and Go channel semantics are modelled, wall-clock timers are nondeterministic events. Legality with a transposition table is proved under HashValue (no hash collision between positions of different value), the precondition of C11; the quiescence versions carry the fuel-sufficiency hypothesis (LeavesUpTo), the static-leaf versions none. The step from the sequential model to the concurrent driver is the transition-system argument (the answer is the last completed iteration of the search that was launched for this go). Trusted: Coq kernel, extraction, harness.',
 })
 PROPS['C16'] = _board('C16', [],
     'randomly timed command scripts (isready, stop, new position / go / ucinewgame during a search, junk and empty lines, quit and end of input while searching) against the real driver with the four bundled engine configurations, under the race detector; positions alternate the side to move so that an answer computed for a superseded search is recognisably illegal.',
